@@ -14,6 +14,7 @@ with match.
 """
 from __future__ import annotations
 import itertools
+import warnings
 from ..engine import shard, lts
 from ..gen import trees as T
 from . import _sel
@@ -49,7 +50,7 @@ def documents():
     # boolean attributes count by presence: the checked members carry non-canonical values on purpose
     radios = [inp(type='radio', name='n'), inp(type='radio', name='n'), inp(type='radio', name='m', checked='yes'),
               inp(type='radio', name='m'), inp(type='radio'), inp(type='radio', name=''),
-              inp(type='radio', name='k'), inp(type='radio', name='k', checked='false'), inp(type='radio', name='k')]
+              inp(type='radio', name='k'), inp(checked='false', name='k', type='radio'), inp(type='radio', name='k')]
     d['radio-groups'] = ((E('html', (), E('body', (), E('form', (), *radios), E('form', (), *radios[:4]),
                                             inp(type='radio', name='n'), inp(type='radio', name='m'),
                                             inp(type='checkbox', indeterminate=''), E('progress'))),), False, False)
@@ -206,8 +207,48 @@ def shards(tier, seed):
     out = [('bfs', tier, d, si) for d in docs for si in sel_idx]
     out += [('api', tier, d, k, 4) for d in docs for k in range(4)]
     out += [('edit', tier, d) for d in docs]
-    out += [('xmlns-sequences', tier, 'x')]
+    out += [('xmlns-sequences', tier, 'x'), ('alone-ns', tier, 'x')]
     return out
+
+
+def run_alone_ns(sv, res):
+    """On a document whose elements are spread over namespaces, with the namespaces= map given to the module-level functions: what select says
+    about an element equals what match, closest and filter say when asked about that element alone."""
+    import bs4
+    from . import c03
+    with warnings.catch_warnings():
+        warnings.simplefilter('ignore')
+        soup = bs4.BeautifulSoup(c03.XML_DOC, 'xml')
+    els = T.elements(soup)
+    maps = ({'x': 'urn:a'}, {'': 'urn:a'}, {'': 'urn:b', 'x': 'urn:a'}, {'x': 'urn:b', 'y': 'urn:a'})
+    pats = [p for p in c03.XML_SELECTORS if '--' not in p] + ['e', '*', '[id]', 'e > e', 'x|f', ':not(e)']
+    for m in maps:
+        for pat in pats:
+            sv.purge()
+            try:
+                sel = sv.select(pat, soup, namespaces=m)
+                views = {
+                    'select': [i for i, e in enumerate(els) if any(e is x for x in sel)],
+                    'match': [i for i, e in enumerate(els) if sv.match(pat, e, namespaces=m)],
+                    'closest': [i for i, e in enumerate(els) if sv.closest(pat, e, namespaces=m) is e],
+                    'filter': [i for i, e in enumerate(els) if any(e is x for x in sv.filter(pat, e.parent, namespaces=m))],
+                    'select_one': [i for i, e in enumerate(els) if e.parent is not None and any(
+                        x is e for x in [sv.select_one(pat, e.parent, namespaces=m)] + sv.select(pat, e.parent, namespaces=m)[1:])],
+                    'iselect': [i for i, e in enumerate(els) if any(e is x for x in sv.iselect(pat, soup, namespaces=m))],
+                }
+            except Exception as e:
+                res.fail({'layer': 'alone-ns', 'map': m, 'selector': pat}, {'kind': 'raise:' + type(e).__name__, 'selector': pat}, repr(e))
+                continue
+            res.evaluations += len(els) * len(views)
+            res.count('transitions', len(els) * len(views))
+            if views['select']:
+                res.nontrivial += 1
+            for name, v in views.items():
+                if v != views['select']:
+                    res.fail({'layer': 'alone-ns', 'map': m, 'selector': pat}, {'kind': 'entry-points-disagree-about-one-element', 'entry': name, 'default_ns': '' in m},
+                             f'[namespaced xml, namespaces={m!r}] select({pat!r}) designates elements {views["select"]}, {name} asked element by element says {v}')
+                    break
+    res.count('states', 1)
 
 
 def run_bfs(sv, tier, docname, si, res):
@@ -474,6 +515,8 @@ def run_shard(desc):
             f['case']['layer'] = 'xmlns'
         res.count('transitions', res.evaluations)
         res.count('states', 1)
+    elif desc[0] == 'alone-ns':
+        run_alone_ns(sv, res)
     elif desc[0] == 'edit':
         run_edits(sv, desc[1], desc[2], res)
     elif desc[0] == 'bfs':
@@ -489,6 +532,13 @@ def replay(case):
     if case['layer'] == 'xmlns':
         from . import c03
         return c03.replay(case)
+    if case['layer'] == 'alone-ns':
+        r = shard.Result()
+        run_alone_ns(sv, r)
+        for f_ in r.failures:
+            if f_['case']['selector'] == case['selector'] and f_['case']['map'] == case['map']:
+                return f_['sig'], f_['detail']
+        return None
     spec = documents()[case['doc']]
     if case['layer'] == 'bfs':
         si = case.get('si', SELECTORS.index(case['selector']))
